@@ -761,6 +761,8 @@ structure ApiCall where
   reduceOnly : Prop
   [dec : Decidable reduceOnly]
 
+instance (a : ApiCall) : Decidable a.reduceOnly := a.dec
+
 def ApiCall.market (qty price : Rat) (side : Jesse.Side) (ro : Prop) [Decidable ro] : ApiCall :=
   { type := .market, qty := qty, price := price, side := side, reduceOnly := ro }
 def ApiCall.limit (qty price : Rat) (side : Jesse.Side) (ro : Prop) [Decidable ro] : ApiCall :=
